@@ -33,6 +33,10 @@ class Describer:
         chk.run()
         self.typer = chk.typer
 
+    def _inliner(self):
+        from .effects import make_inliner
+        return self.ctx.repo.cache(('descr-inliner', self.func.module.name), lambda: make_inliner(self.func.module))
+
     def env_at(self, node):
         n = node
         while n is not None:
@@ -68,12 +72,22 @@ class Describer:
             row = self._pseudo_row(e)
         env = self.env_at(at)
         fn = self.func.node
-        if depth > 8:
+        if depth > 16:
             return f'expr:{norm(e)}'
         if isinstance(e, ast.Constant):
             return f'const:{e.value!r}'
+        if isinstance(e, ast.Attribute) and e.attr == 'lastrowid':
+            # the rowid of the row the importer has just inserted (the lexicon row in _insert_lexicon)
+            return 'lexid'
+        if isinstance(e, ast.Call) and isinstance(e.func, ast.Name) and depth < 6:
+            inl = self._inliner()
+            if e.func.id in inl.simple:
+                from .inline import clone
+                new = inl(clone(e))
+                if not (isinstance(new, ast.Call) and isinstance(new.func, ast.Name) and new.func.id == e.func.id):
+                    return self.describe(new, at, depth + 1, row)
         if isinstance(e, ast.Name):
-            if e.id == 'lexid':
+            if e.id == 'lexid' and e.id in self.func.params:
                 return 'lexid'
             en = self._enum(e.id, e, row)
             if en is not None:
@@ -94,7 +108,7 @@ class Describer:
             if cn:
                 return cn
             # loop variable fed through lists of tuples / collections built locally
-            if depth < 6:
+            if depth < 12:
                 srcs = flow_sources(self.func, e.id, row)
                 if srcs:
                     ds = sorted({self.describe(x, x, depth + 1, None) for x in srcs})
@@ -125,7 +139,9 @@ class Describer:
                     and len(e.args) == 2 and norm(e.args[1]) == 'lexid':
                 return f'lid({self.describe(e.args[0], at, depth + 1, row)})'
             if isinstance(f, ast.Attribute) and f.attr == 'get' and len(e.args) == 2:
-                return f'{norm(f.value)}.get({self.describe(e.args[0], at, depth + 1, row)}, {norm(e.args[1])})'
+                recv = self.describe(f.value, at, depth + 1, row) if isinstance(f.value, ast.Name) and f.value.id not in self.func.params \
+                    else norm(f.value)
+                return f'{recv}.get({self.describe(e.args[0], at, depth + 1, row)}, {norm(e.args[1])})'
             if isinstance(f, ast.Name) and f.id in ACCESSORS and len(e.args) == 1:
                 return f'{self.describe(e.args[0], at, depth + 1, row)}.{ACCESSORS[f.id]}'
             if isinstance(f, ast.Name) and len(e.args) >= 1 and not e.keywords:
@@ -135,7 +151,7 @@ class Describer:
             return f'const:{-e.operand.value!r}'
         if isinstance(e, ast.UnaryOp) and isinstance(e.op, ast.Not):
             return f'not ({self._cond(e.operand, at, depth, row)})'
-        if isinstance(e, (ast.ListComp, ast.SetComp, ast.GeneratorExp, ast.DictComp)) and depth < 6:
+        if isinstance(e, (ast.ListComp, ast.SetComp, ast.GeneratorExp, ast.DictComp)) and depth < 12:
             from .rowshape import Row
             r2 = Row(elts=[], gens=(list(row.gens) if row is not None else []) + [(g.target, g.iter) for g in e.generators], node=e)
             overs = [self.describe(g.iter, g.iter, depth + 1, r2) for g in e.generators]
@@ -146,7 +162,7 @@ class Describer:
                 body = self.describe(e.elt, e.elt, depth + 1, r2)
             kind = {ast.ListComp: 'list', ast.SetComp: 'set', ast.GeneratorExp: 'gen', ast.DictComp: 'dict'}[type(e)]
             return f'{kind}[{body} over {" , ".join(overs)}' + (f' if {" and ".join(conds)}' if conds else '') + ']'
-        if isinstance(e, (ast.List, ast.Tuple)) and depth < 6:
+        if isinstance(e, (ast.List, ast.Tuple)) and depth < 12:
             return '[' + ', '.join(self.describe(x, x, depth + 1, row) for x in e.elts) + ']'
         if isinstance(e, ast.IfExp):
             return (f'({self.describe(e.body, at, depth + 1, row)} if {self._cond(e.test, at, depth, row)} '
@@ -154,6 +170,10 @@ class Describer:
         if isinstance(e, ast.BoolOp):
             op = ' and ' if isinstance(e.op, ast.And) else ' or '
             return '(' + op.join(self.describe(v, at, depth + 1, row) for v in e.values) + ')'
+        if isinstance(e, ast.Subscript) and depth < 6:
+            return f'{self.describe(e.value, at, depth + 1, row)}[{self.describe(e.slice, at, depth + 1, row)}]'
+        if isinstance(e, ast.Call) and isinstance(e.func, ast.Attribute) and e.func.attr in ('items', 'values', 'keys') and not e.args and depth < 6:
+            return f'{self.describe(e.func.value, at, depth + 1, row)}.{e.func.attr}()'
         return f'expr:{norm(e)}'
 
     def _cond(self, t, at, depth, row):
@@ -189,7 +209,7 @@ class Describer:
 
     def _enum(self, name, at, row):
         """`i` bound by `for i, x in enumerate(ITER[, start])` -> enum(start)@<ITER descriptor>"""
-        gens = list(row.gens) if row is not None else []
+        gens = list(reversed(row.gens)) if row is not None else []      # innermost binding first
         for n in ast.walk(self.func.node):
             if isinstance(n, (ast.For, ast.comprehension)):
                 gens.append((n.target, n.iter))
